@@ -22,7 +22,7 @@
 //               / both controlled; 1-3 loopback addresses (127.0.0.1-3, ::1) x 1-2 components per agent; candidate
 //               order permuted; optional harness STUN server (server-reflexive candidates); second agent started up
 //               to 150 ms after the first; all traffic through a harness UDP relay that drops a generated subset of
-//               the first up-to-6 datagrams.  Oracle: both emit connected(); advertised priorities and the PRIORITY
+//               the first up-to-6 datagrams (STUN only, and only until both agents are connected: nobody retransmits media).  Oracle: both emit connected(); advertised priorities and the PRIORITY
 //               of every check equal RFC 5245 4.1.2.1 computed here; 1-3 payloads of 1..1400 bytes each way (per
 //               component) arrive unchanged.
 #include "lb.h"
@@ -735,6 +735,8 @@ VCHECK("c15.safety", 900)
         f.desc = std::string(kindName[f.kind]) + "/" + integName[f.integ] + (f.useCandidate ? " USE-CANDIDATE " : " ") + un[f.username] + " " + rn[f.role] + " " + pn[f.prio] +
             (f.inflightTid ? " tid=in-flight" : " tid=random") + (f.fp ? " +fp" : "") + (f.wouldReact ? " [live if authenticated]" : "");
         c.label(std::string("forged:") + kindName[f.kind] + "/" + integName[f.integ]);
+        if ((f.kind == K_SUCCESS || f.kind == K_ERROR) && haveInflight && fromKnown)
+            c.label("forged:response-to-in-flight-check-from-a-candidate-port");
         burst.push_back(std::move(f));
     }
     std::string burstDesc;
@@ -777,7 +779,7 @@ VCHECK("c15.safety", 900)
             const Forged *culprit = nullptr;
             for (auto &r : re)
                 for (auto &f : burst)
-                    if (!culprit && !r.tid.isEmpty() && r.tid == f.tid)
+                    if (!culprit && r.kind == "binding-response-sent" && f.kind == K_REQUEST && r.tid == f.tid)
                         culprit = &f;
             std::string kinds, details;
             std::set<std::string> ks;
@@ -790,9 +792,14 @@ VCHECK("c15.safety", 900)
             if (culprit)
                 who = std::string(kindName[culprit->kind]) + "/" + integName[culprit->integ];
             else {
+                // not attributable from the wire: name the forged messages that would be live if authenticated
                 std::set<std::string> vs;
                 for (auto &f : burst)
-                    vs.insert(std::string(kindName[f.kind]) + "/" + integName[f.integ]);
+                    if (f.wouldReact)
+                        vs.insert(std::string(kindName[f.kind]) + "/" + integName[f.integ]);
+                if (vs.empty())
+                    for (auto &f : burst)
+                        vs.insert(std::string(kindName[f.kind]) + "/" + integName[f.integ]);
                 for (auto &v : vs)
                     who += (who.empty() ? "" : ",") + v;
             }
@@ -821,6 +828,21 @@ VCHECK("c15.safety", 900)
         if (anyLive)
             twinPredicted++;
         c.label(re.empty() ? "twin:no-state-change" : "twin:state-changed");
+        // observation, not judged by C15 (the sender knows the password): is USERNAME looked at at all?
+        static uint64_t badUserAnswered = 0, badUserLive = 0;
+        for (auto &f : burst) {
+            if (f.kind != K_REQUEST || !f.wouldReact || f.username == 0)
+                continue;
+            badUserLive++;
+            for (auto &r : re)
+                if (r.kind == "binding-response-sent" && r.tid == f.tid) {
+                    badUserAnswered++;
+                    c.label(f.username == 1 ? "twin:authenticated-request-with-swapped-USERNAME-answered" : f.username == 2 ? "twin:authenticated-request-with-wrong-USERNAME-answered" : "twin:authenticated-request-without-USERNAME-answered");
+                    break;
+                }
+        }
+        c.notes["twin_requests_with_bad_username"] = std::to_string(badUserLive);
+        c.notes["twin_requests_with_bad_username_answered"] = std::to_string(badUserAnswered);
         if (re.empty() != !anyLive) {
             twinMismatch++;
             c.label(re.empty() ? "twin:predicted-live-but-silent" : "twin:predicted-dead-but-reacted");
@@ -902,6 +924,7 @@ struct LiveOutcome {
     int roleConflicts = 0, relayed = 0, dropped = 0, unknownSource = 0, sent487 = 0, nCandA = 0, nCandB = 0, srflx = 0;
     std::string prioSig, prioMsg;
     std::string paySig, payMsg;
+    bool reordered = false;
     std::string trace;
 };
 
@@ -929,6 +952,7 @@ LiveOutcome runNegotiation(const LiveParams &P, int deadlineMs)
     LiveOutcome o;
     QElapsedTimer clk;
     int relayedCount = 0;
+    bool dropsOpen = true;
     LiveRun R;
     // optional STUN server: reports the source address it sees (no NAT on loopback)
     if (P.stun) {
@@ -1079,7 +1103,8 @@ LiveOutcome runNegotiation(const LiveParams &P, int deadlineMs)
                             o.sent487++;
                     }
                     int n = relayedCount++;
-                    if (n < P.dropWindow && ((P.dropMask >> n) & 1)) {
+                    // loss hits the negotiation only (first transmissions of checks and answers); application data is not retransmitted by anyone
+                    if (dropsOpen && q.stun && n < P.dropWindow && ((P.dropMask >> n) & 1)) {
                         o.dropped++;
                         if (o.trace.size() < 1500)
                             o.trace += std::string("\n  #") + std::to_string(n) + " DROPPED " + (raw->owner == 1 ? "A->B " : "B->A ") + (q.stun ? typeName(q.type) : "data");
@@ -1131,6 +1156,7 @@ LiveOutcome runNegotiation(const LiveParams &P, int deadlineMs)
         return o;
     }
     // ---- application datagrams, both ways, every component
+    dropsOpen = false;
     for (int dir = 0; dir < 2 && o.paySig.empty(); dir++) {
         LiveAgent &from = R.ag[dir], &to = R.ag[1 - dir];
         const auto &pay = dir == 0 ? P.payAB : P.payBA;
@@ -1150,7 +1176,11 @@ LiveOutcome runNegotiation(const LiveParams &P, int deadlineMs)
                 std::vector<QByteArray> gs = got, ps = pay;
                 std::sort(gs.begin(), gs.end());
                 std::sort(ps.begin(), ps.end());
-                o.paySig = got.size() < pay.size() ? "c15 liveness payload-not-delivered" : gs == ps ? "c15 liveness payload-reordered" : "c15 liveness payload-changed";
+                if (gs == ps) {   // the statement does not promise ordering
+                    o.reordered = true;
+                    continue;
+                }
+                o.paySig = got.size() < pay.size() ? "c15 liveness payload-not-delivered" : "c15 liveness payload-changed";
                 o.payMsg = std::string(dir == 0 ? "A->B" : "B->A") + " component " + std::to_string(comp) + ": sent " + std::to_string(pay.size()) + " datagrams, received " + std::to_string(got.size()) + ";";
                 for (size_t k = 0; k < pay.size(); k++)
                     o.payMsg += "\n  sent[" + std::to_string(k) + "] " + std::to_string(pay[k].size()) + "B " + hex(pay[k].left(24)) + (k < got.size() ? "\n  got [" + std::to_string(k) + "] " + std::to_string(got[k].size()) + "B " + hex(got[k].left(24)) : "");
@@ -1165,7 +1195,7 @@ LiveOutcome runNegotiation(const LiveParams &P, int deadlineMs)
 VCHECK("c15.liveness", 9000)
 {
     LiveParams P;
-    P.roles = int(t.weighted({ 13, 13, 2, 2 }));
+    P.roles = int(t.weighted({ 15, 15, 1, 1 }));   // conflicts are rare: each costs the full waiting time
     P.comps = t.pick<std::vector<int>>({ { 1 }, { 1 }, { 1 }, { 1, 2 }, { 2 }, { 256 } });
     auto genAddrs = [&] {
         static const char *pool[] = { "127.0.0.1", "127.0.0.2", "127.0.0.3", "::1" };
@@ -1276,6 +1306,8 @@ VCHECK("c15.liveness", 9000)
     c.notes["connect_ms_max"] = std::to_string(maxMs);
     c.notes["connected_cases"] = std::to_string(nConn);
     c.require(o.paySig.empty(), o.paySig, [&] { return o.payMsg + "\n " + describe(o); });
+    if (o.reordered)
+        c.label("payloads-reordered");
     c.count("payload-datagrams", (P.payAB.size() + P.payBA.size()) * P.comps.size());
     static qint64 caseMsSum = 0;
     caseMsSum += wall.elapsed();
